@@ -121,7 +121,7 @@ def r2(ctx: Ctx) -> None:
     # the reaper returns exactly the records it built
     f = ctx.func("OrderBook._check_expired_orders")
     for p in ctx.paths(f.qualname):
-        if p.exit[0] != "return" or not loops(p):
+        if p.exit[0] != "return" or not any(e.kind == "call" and e.site.how == "ctor" and e.name == "ExpirationLog" for e in p.walk_events(True)):
             continue
         ret = p.exit[1]
         ok = False
@@ -132,6 +132,33 @@ def r2(ctx: Ctx) -> None:
                 if len(made) == 1 and len(app) == 1:
                     ok = True
         ctx.check(ok, f, f.node, "each expiry record is appended once to the returned list", "logs.append(ExpirationLog(...)); return logs", short(ret))
+
+
+def _obj_term(src: str, holder: Path, top: Path) -> Term:
+    """term of the event object named by the dotted source expression `src`"""
+    parts = src.split(".")
+    t: Term = ("sym", parts[0])
+    for l in loops(top):
+        if holder in l.paths and l.target and l.target[0] == parts[0]:
+            t = ("sym", f"{parts[0]}∈{l.loopid}")
+    for a in parts[1:]:
+        t = ("attr", t, a)
+    return t
+
+
+def _is_field_value(v: Term, obj: Term, attr: str, holder: Path, before: Event) -> bool:
+    """v is the value of obj.attr at the time of `before`: a (versioned) read of that field, or
+    the value of the last store to it earlier on the path"""
+    sv = strip_ver(v)
+    if sv == ("attr", strip_ver(obj), attr):
+        return True
+    last = None
+    for x in holder.events:
+        if x is before:
+            break
+        if x.kind == "store" and x.attr == attr and strip_ver(x.base) == strip_ver(obj):
+            last = x
+    return last is not None and last.value == v
 
 
 def _kwnode(call: ast.Call, name: str) -> Optional[ast.AST]:
@@ -164,12 +191,15 @@ def r3(ctx: Ctx) -> None:
                             if holder in l.paths:
                                 src = l.target[0]
                     bad = []
+                    objt = _obj_term(src, holder, p)
                     for field, attr in fmap.items():
-                        n = _kwnode(e.node, field)
-                        txt = ast.unparse(n) if n is not None else "<missing>"
-                        if txt != f"{src}.{attr}":
-                            bad.append(f"{field}={txt}")
-                    ctx.check(not bad, f, e.node, f"{cls_} fields are copied from {src}.<same field>", ", ".join(f"{k}={src}.{v}" for k, v in fmap.items()), ", ".join(bad) or "all fields agree")
+                        v = kw(e, field)
+                        if v is None:
+                            bad.append(f"{field}=<missing>")
+                            continue
+                        if not _is_field_value(v, objt, attr, holder, e):
+                            bad.append(f"{field}={short(v)[:60]}")
+                    ctx.check(not bad, f, e.node, f"{cls_} fields are copied from {src}.<same field>", ", ".join(f"{k}={src}.{v_}" for k, v_ in fmap.items()), ", ".join(bad) or "all fields agree")
                     # nothing changes the source fields after the record is built
                     later = holder.events[holder.events.index(e) + 1:]
                     changed = [x for x in later if (x.kind == "store" and x.attr in set(fmap.values())) or (x.kind == "call" and x.site.targets and x.site.how != "byname" and any(a in set(fmap.values()) and o in ("Order", "?") for t in x.site.targets for o, a in ctx.cg.mod_attrs(t)))]
@@ -178,23 +208,20 @@ def r3(ctx: Ctx) -> None:
     # time stamps
     for q, cls_, field, want in (("Market._cancel_order", "CancelLog", "cancel_time", "cancel.placed_at"), ("OrderBook._check_expired_orders", "ExpirationLog", "time", "self.time")):
         f = ctx.func(q)
-        for node in ast.walk(f.node):
-            if isinstance(node, ast.Call) and isinstance(node.func, ast.Name) and node.func.id == cls_:
-                n = _kwnode(node, field)
-                ctx.check(n is not None and ast.unparse(n) == want, f, node, f"{cls_}.{field}", want, ast.unparse(n) if n is not None else "<missing>")
+        for p in ctx.paths(q):
+            for e in p.walk_events(True):
+                if e.kind == "call" and e.site.how == "ctor" and e.name == cls_:
+                    v = kw(e, field)
+                    ctx.check(v is not None and key(strip_ver(v)) == want, f, e.node, f"{cls_}.{field}", want, short(v))
     # the fill record
     f = ctx.func("Market._execute_orders")
     want = {"market_id": "self.market_id", "time": "self.time", "buy_agent_id": "buy_order.agent_id", "sell_agent_id": "sell_order.agent_id",
             "buy_order_id": "buy_order.order_id", "sell_order_id": "sell_order.order_id", "price": "price", "volume": "volume"}
-    for node in ast.walk(f.node):
-        if isinstance(node, ast.Call) and isinstance(node.func, ast.Name) and node.func.id == "ExecutionLog":
-            bad = []
-            for k, v in want.items():
-                n = _kwnode(node, k)
-                txt = ast.unparse(n) if n is not None else "<missing>"
-                if txt != v:
-                    bad.append(f"{k}={txt}")
-            ctx.check(not bad, f, node, "ExecutionLog fields (buy side from the buy order, sell side from the sell order)", ", ".join(f"{k}={v}" for k, v in want.items()), ", ".join(bad) or "all fields agree")
+    for p in normal_paths(ctx.paths(f.qualname)):
+        for e in calls(p):
+            if e.site.how == "ctor" and e.name == "ExecutionLog":
+                bad = [f"{k}={short(kw(e, k))}" for k, v in want.items() if kw(e, k) is None or key(strip_ver(kw(e, k))) != v]
+                ctx.check(not bad, f, e.node, "ExecutionLog fields (buy side from the buy order, sell side from the sell order)", ", ".join(f"{k}={v}" for k, v in want.items()), ", ".join(bad) or "all fields agree")
     # constructors
     for c in _log_classes(ctx):
         init = ctx.program.classes[c].methods.get("__init__")
